@@ -103,9 +103,50 @@ pub fn run(ctx: &Ctx) -> i32 {
         if ti % 29 == (ctx.seed as usize % 29) { acc.sample(json!({"base": m.show(), "variants": n, "ordered_pairs": n * n})) }
         acc
     }).reduce(Acc::new, Acc::merge);
+    // wide / deep shapes: the original, single-target variants under four actions at positions from both ends of the digest list, a decoded copy
+    // of each, and the shape with one assertion less; all ordered pairs
+    let wide = families::wide_all(th);
+    let accw = wide.par_iter().with_max_len(1).map(|(wn, m)| {
+        let mut acc = Acc::new();
+        let Ok(e) = catch(|| bind::build(m, 0)) else { return acc };
+        acc.inc("wide_bases");
+        let ds = m.distinct_digests();
+        let picks: Vec<usize> = (0..ds.len()).filter(|i| *i < 4 || i % 61 == 0 || *i + 3 >= ds.len()).collect();
+        let actions = |i: usize| match i { 0 => ObscureAction::Elide, 1 => ObscureAction::Encrypt(k0.clone()), 2 => ObscureAction::Encrypt(k1.clone()), _ => ObscureAction::Compress };
+        let mut fam: Vec<(Envelope, D)> = vec![(e.clone(), m.digest())];
+        let mut seen: HashSet<O> = HashSet::new(); seen.insert(bind::observe(&e));
+        for &i in &picks { if ds[i] == m.digest() { continue } let t = bind::dset(&[ds[i]]); for a in 0..4 { if let Ok(r) = catch(|| e.elide_removing_set_with_action(&t, &actions(a))) { if a == 2 || seen.insert(bind::observe(&r)) { fam.push((r, m.digest())) } } } }
+        let n0 = fam.len();
+        for i in (0..n0).step_by(3) { if let Ok(d) = Envelope::try_from_cbor_data(fam[i].0.to_cbor_data()) { fam.push((d, m.digest())) } }
+        if let M::Node(sub, asrt) = m { if asrt.len() >= 2 { let less = M::Node(sub.clone(), asrt[1..].to_vec()); fam.push((bind::build(&less, 0), less.digest())) } }
+        let pats: Vec<O> = fam.iter().map(|x| bind::observe(&x.0)).collect();
+        let sds: Vec<Digest> = fam.iter().map(|x| x.0.structural_digest()).collect();
+        let n = fam.len();
+        for i in 0..n { for j in 0..n {
+            acc.inc("ordered_pairs");
+            let exp_equiv = fam[i].1 == fam[j].1;
+            let exp_ident = exp_equiv && pats[i] == pats[j];
+            let cid = || format!("wide/{wn}/pair{i},{j}");
+            let det = || json!({"shape": wn, "left_pattern": pat_class(&pats[i]), "right_pattern": pat_class(&pats[j]), "left_bytes_len": fam[i].0.to_cbor_data().len(), "right_bytes_len": fam[j].0.to_cbor_data().len()});
+            let pc = || format!("{}~{}", pat_class(&pats[i]), pat_class(&pats[j]));
+            match catch(|| (fam[i].0.is_equivalent_to(&fam[j].0), fam[i].0.is_identical_to(&fam[j].0), fam[i].0 == fam[j].0)) {
+                Err(p) => acc.viol(format!("C14|panic|{}", p.loc), p.msg.clone(), cid(), det()),
+                Ok((ge, gi, gq)) => {
+                    if ge != exp_equiv { acc.viol(format!("C14|is_equivalent_to|wide|{}|expected-{exp_equiv}", pc()), "equivalence verdict differs from digest equality", cid(), det()) }
+                    if gi != exp_ident { acc.viol(format!("C14|is_identical_to|wide|{}|expected-{exp_ident}", pc()), "identity verdict differs from (equivalent and same obscuration pattern)", cid(), det()) }
+                    if gq != exp_ident { acc.viol(format!("C14|eq|wide|{}|expected-{exp_ident}", pc()), "== differs from identity", cid(), det()) }
+                    if (sds[i] == sds[j]) != exp_ident { acc.viol(format!("C14|structural_digest|wide|{}|expected-{exp_ident}", pc()), "structural digest equality differs from identity", cid(), det()) }
+                    if exp_equiv && !exp_ident { acc.inc("equivalent_not_identical_pairs") }
+                }
+            }
+        } }
+        acc.nontrivial(&("wide", wn.clone()));
+        acc
+    }).reduce(Acc::new, Acc::merge);
+    let acc = acc.merge(accw);
     let evals = acc.get("ordered_pairs") + acc.get("triples");
     let cov = json!({"evaluations": evals,
-        "rule": "per base tree: variant family = {original, every obscuration pattern under Elide / Encrypt(k0) / Encrypt(k1) / Compress, two-action mixes, re-decoded copies, unrelated envelopes}; ALL ordered pairs judged by (model digest equality, observed pattern equality); triples for transitivity; distinct = distinct observed variants",
+        "rule": "wide / deep shapes (22..256 assertions, every count 1..72, depth sweeps): original + single-target variants under four actions + decoded copies + one-assertion-less, all ordered pairs; per base tree: variant family = {original, every obscuration pattern under Elide / Encrypt(k0) / Encrypt(k1) / Compress, two-action mixes, re-decoded copies, unrelated envelopes}; ALL ordered pairs judged by (model digest equality, observed pattern equality); triples for transitivity; distinct = distinct observed variants",
         "exhaustive": true, "bounds": {"tree_weight": w, "variants_cap_per_base": if th { 260 } else { 150 }}});
     let _ = SymmetricKey::from_data([0u8; 32]);
     finish(ctx, acc, "exploration", cov, vec!["the variant family of a base is capped; all ordered pairs of the capped family are compared".into()])
